@@ -3,7 +3,7 @@
 Each check returns Findings.  A finding carries a *scenario* for the native replay runner and a
 predicate over the runner's output; it becomes a VIOLATION only if the predicate holds on the real
 code.  A check that meets a MIR shape it does not understand raises Shape -> inconclusive."""
-import re, json
+import re, json, os
 from .executor import tstr, strip_via
 
 MUTATING = ("CredentialStore::save_credential", "CredentialStore::update_credential")
@@ -578,7 +578,7 @@ def check_get_assertion(paths, ctx, want):
                 passed = e["args"][1]
                 stats.setdefault("c08_update_terms", []).append(tstr(passed)[:200])
 
-        if "C11" in want and kind == "Ok":
+        if ("C11" in want or "C03" in want) and kind == "Ok":
             mp = calls(p, "Option::map")
             if not mp:
                 raise Shape("no Option::map for the response's user")
@@ -596,8 +596,10 @@ def check_get_assertion(paths, ctx, want):
                         v["user"]["outcome"] = {"ok": [True, verified]}
                         v["store"]["held"][0]["user_handle"] = True
                         variants.append(v)
-                F.append(Finding("C11", "ga.user-handle-source", "the response's user is not derived from the credential's stored user handle alone (%s)" % tstr(src)[:80],
-                                 variants or None, lambda o: isinstance(o["result"], dict) and "ok" in o["result"] and o["result"]["ok"]["user"] is False, p))
+                for _pid in ("C11", "C03"):
+                    if _pid in want:
+                        F.append(Finding(_pid, "ga.user-handle-source", "the response's user is not derived from the credential's stored user handle alone (%s)" % tstr(src)[:80],
+                                         variants or None, lambda o: isinstance(o["result"], dict) and "ok" in o["result"] and o["result"]["ok"]["user"] is False, p))
     return F, stats
 
 
@@ -1342,10 +1344,22 @@ def check_store_contract(fns, ctx, solver, store_kind):
             ids_term = ("proj", ("in", "_1.0"), "^.1")
             src = [e for e in p.events if e["kind"] == "call" and e["callee"].endswith("into_iter") and any(contains(a, ids_term) for a in e["args"])]
             if src:
-                sc = {"op": "store_find", "store_kind": store_kind, "stored_rp": "a.example", "query_rp": "a.example", "ids": None}
-                F.append(Finding("C05", "store.%s.absent-list-finds-nothing" % store_kind,
-                                 "the lookup iterates the id list only: with an absent list the credentials of the RP are never found", sc,
-                                 lambda o: isinstance(o["result"], dict) and "err" in o["result"], p))
+                # the list and the no-list case share one path: probe the whole documented contract natively
+                probes = [{"op": "store_find", "store_kind": store_kind, "stored_rp": "a.example", "query_rp": q, "ids": ids}
+                          for q in ("a.example", "b.example") for ids in (None, "match", "other", "other_then_match")]
+
+                def contract_violated(o, store_kind=store_kind):
+                    scn, r = o["scenario"], o["result"]
+                    n_ = r.get("ok", 0) if isinstance(r, dict) else 0
+                    same = scn["stored_rp"] == scn["query_rp"]
+                    ids = scn["ids"]
+                    if store_kind == "memory" and ids in ("match", "other_then_match") and not same:
+                        return False      # this probe is the open known finding, reported under its own role
+                    want = same if ids in (None, "match", "other_then_match") else False
+                    return (n_ > 0) != want
+                F.append(Finding("C05", "store.%s.id-list-contract" % store_kind,
+                                 "the lookup handles a present and an absent id list on one path (it iterates the list itself): probing the documented contract "
+                                 "(absent list: all credentials of the RP; present list: only listed credentials)", probes, contract_violated, p))
         if case in ("some", "both") and store_kind == "option":
             names = [e["callee"] for e in p.events if e["kind"] == "call"]
             iterated = any(n.endswith(("Iterator::find_map", "Iterator::filter_map", "Iterator::find", "Iterator::any", "Iterator::filter", "Iterator::position", "Iterator::for_each")) for n in names)
@@ -1699,6 +1713,14 @@ def check_concurrent_counters(ga_paths, fns_tokio, ctx, solver):
                 nwrap += 1
                 lk = [(i, e) for i, e in env_calls(q) if e["callee"].endswith(("::lock", "::read", "::write"))]
                 inner = [(i, e) for i, e in env_calls(q) if e["callee"].endswith("::" + m)]
+                selfcalls = [(i, e) for i, e in env_calls(q) if e["callee"].startswith("CredentialStore::") and ("Arc<tokio::sync::" in e["full"] or "tokio::sync::Mutex<S> as" in e["full"]
+                                                                                                              or "tokio::sync::RwLock<S> as" in e["full"])]
+                if selfcalls and lk and any(i > lk[0][0] for i, _ in selfcalls):
+                    F.append(Finding("C19", "wrapper.%s.%s.calls-wrapper-while-locked" % (lock, m),
+                                     "the %s wrapper's %s calls %s on the wrapper itself while it holds the guard: a second acquisition of the same lock (with a writer queued in between it "
+                                     "never completes)" % (lock, m, selfcalls[0][1]["callee"]), {"op": "wrapper_contention", "lock": lock},
+                                     lambda o: bool(o["result"]["deadlocks"]), q))
+                    continue
                 if len(lk) >= 2:
                     F.append(Finding("C19", "wrapper.%s.%s.nested-lock" % (lock, m), "the %s wrapper's %s acquires the lock %d times in one call (%s): a second acquisition while the first guard is "
                                      "alive never completes" % (lock, m, len(lk), [e["callee"] for _, e in lk]), sc, bad, q))
@@ -2525,6 +2547,20 @@ def check_client(fns, ctx, kind):
             der = [e for _, e in ev if e["callee"].endswith("public_key_der_from_cose_key")]
             if pk is None or len(der) != 1 or not derives_from(pk, der[0]["ret"], p) or not derives_from_under(_pointee(der[0], 0)[1], R, authd[2], p):
                 add("public-key-der", "the returned DER public key is not converted from the COSE key inside the returned authenticator data", p)
+            # credProps: the extension outputs are computed from the store's own info, the rk option that was sent and the
+            # authenticator's unsigned outputs
+            reo = byname("registration_extension_outputs")
+            if reo:
+                re_ = reo[0][1]
+                rk_sent = _struct_field(optf, "rk") if optf is not None else None
+                a_rk = chase(re_["args"][3]) if len(re_["args"]) > 3 else None
+                if a_rk is None or rk_sent is None or a_rk != chase(rk_sent) or not (a_rk[0] == "ret" and str(a_rk[2]).endswith("map_rk")):
+                    F.append(Finding("C11", "client.register.credprops-rk-source", "credProps is computed from %s, not from the rk option sent to the authenticator (%s)" %
+                                     (tstr(a_rk)[:60], tstr(rk_sent)[:60]), {"op": "client_credprops"}, lambda o: bool(o["result"]["mismatches"]), p))
+                a_info = chase(re_["args"][2]) if len(re_["args"]) > 2 else None
+                if a_info is None or not (a_info[0] == "await" and str(a_info[1][2]).endswith("CredentialStore::get_info")):
+                    F.append(Finding("C11", "client.register.credprops-store-info", "credProps is not computed from the store's own capability report (%s)" % tstr(a_info)[:60],
+                                     {"op": "client_credprops"}, lambda o: bool(o["result"]["mismatches"]), p))
             alg = _struct_field(inner, "public_key_algorithm")
             if alg is None or not derives_from_under(alg, R, authd[2], p):
                 add("public-key-algorithm", "the reported algorithm does not come from the COSE key inside the returned authenticator data: %s" % tstr(alg)[:80], p)
@@ -2812,6 +2848,22 @@ def check_authdata_setters(fns, src):
             seen_sections.update(written)
             if bits != written:
                 F.append(Finding("C12", "authdata.%s.section-bit-mismatch" % m, "AuthenticatorData::%s attaches section(s) %s but sets bit(s) %s" % (m, sorted(written), sorted(bits)), sc, bad, p))
+    # set_flags only ever adds bits: the flags field is or-ed into, never assigned (an assignment could clear a section bit set earlier)
+    cands = [f for nme, f in fns.items() if nme.endswith("::set_flags") and "attestation_fmt" in nme]
+    if len(cands) != 1:
+        raise Shape("cannot identify AuthenticatorData::set_flags (%d)" % len(cands))
+    for p in Executor(cands[0], follow_yields=False).run():
+        if p.end and p.end[0] == "unsupported":
+            raise Shape("unsupported MIR in set_flags: %s" % p.end[1][:160])
+        if not p.end or p.end[0] != "return":
+            continue
+        n += 1
+        t = chase(p.end[1])
+        assigned = isinstance(t, tuple) and t and t[0] == "with" and any(suf == ".%d" % idx["flags"] or suf.startswith(".%d." % idx["flags"]) for suf, _ in t[2])
+        ored = [e for e in p.events if e["kind"] == "call" and e["callee"].endswith(("BitOrAssign::bitor_assign", "Flags::insert")) and (_pointee(e, 0)[0] or "").endswith(".%d" % idx["flags"])]
+        if assigned or not ored:
+            F.append(Finding("C12", "authdata.set_flags.overwrites-flags", "AuthenticatorData::set_flags assigns the flags field instead of or-ing into it: section bits set earlier can be lost",
+                             sc, bad, p))
     if n == 0:
         raise Shape("no returning path in the AuthenticatorData setters")
     if seen_sections != {"AT", "ED"}:
@@ -3017,4 +3069,29 @@ def check_base64_wrappers(fns):
                     F.append(Finding("C14", "encoding.%s.wrong-alphabet-or-padding" % name, "encoding::%s does not encode with %s (%s)" % (name, want, src[:80]), sc, bad, p))
     if n == 0:
         raise Shape("no returning path in the base64 wrappers")
+    return F, n
+
+
+def check_member_order(sources):
+    """C13: the members of every serde_workaround! struct are declared in ascending key order (the generated serializer
+    writes them in declaration order, and the map must come out with ascending integer keys).  `sources`: {path: text}"""
+    F = []
+    n = 0
+    for path, text in sorted(sources.items()):
+        for m in re.finditer(r"serde_workaround!\s*\{(.*?)\n\}", text, re.S):
+            body = m.group(1)
+            sm = re.search(r"pub struct (\w+)", body)
+            if not sm:
+                continue
+            keys = [int(x, 0) for x in re.findall(r"#\[serde\(\s*rename\s*=\s*(0x[0-9a-fA-F]+|\d+)", body)]
+            if not keys:
+                continue
+            n += 1
+            if keys != sorted(keys) or len(set(keys)) != len(keys):
+                F.append(Finding("C13", "member-order.%s.%s" % (os.path.basename(path).replace(".rs", ""), sm.group(1)),
+                                 "%s::%s declares its members with keys %s: not strictly ascending, so the serialised map is not in ascending key order" %
+                                 (os.path.basename(path), sm.group(1), keys), {"op": "cbor_keys"},
+                                 lambda o: any(not x["ascending"] for x in o["result"]["messages"]), None))
+    if n == 0:
+        raise Shape("no serde_workaround! struct found in the CTAP2 sources")
     return F, n
